@@ -16,6 +16,7 @@ import (
 	"strings"
 	"time"
 	"sort"
+	"strconv"
 	"unsafe"
 
 	"github.com/RoaringBitmap/roaring/v2"
@@ -822,6 +823,43 @@ func (e *Exec) do(c *Call, ev *Event) (targets []int) {
 		ev.Aux = ok
 		ev.Arr = e.projArr(normalize(sp), ev)
 		ev.Ret = numFromU64(uint64(len(arr)))
+	case "Stats": // container-kind statistics: counts and values must add up to the bitmap (extension beyond the listed properties)
+		st := e.bm(c.X).Stats()
+		nk := [3]int{}
+		for _, ch := range view32(e.bm(c.X), nil).Chunks {
+			if ch.T >= 0 && ch.T <= 2 {
+				nk[ch.T]++
+			}
+		}
+		ev.Ret = map[string]any{"card": numFromU64(st.Cardinality), "containers": int(st.Containers),
+			"kinds": []int{int(st.ArrayContainers), int(st.BitmapContainers), int(st.RunContainers)},
+			"values": numFromU64(st.ArrayContainerValues + st.BitmapContainerValues + st.RunContainerValues),
+			"viewkinds": []int{nk[0], nk[1], nk[2]}, "hasrun": e.bm(c.X).HasRunCompression()}
+	case "String": // String() lists the elements in increasing order as {a,b,c} (truncated after 0x40000 values)
+		x := e.bm(c.X)
+		set := view32(x, nil).Set
+		if !set.smallerThan(200000) {
+			ev.Skip = true
+			return nil
+		}
+		str := x.String()
+		ok := len(str) >= 2 && str[0] == '{' && str[len(str)-1] == '}'
+		var sp []span
+		if ok && len(str) > 2 {
+			prev := int64(-1)
+			for _, f := range strings.Split(str[1:len(str)-1], ",") {
+				v, err := strconv.ParseUint(f, 10, 32)
+				if err != nil || int64(v) <= prev {
+					ok = false
+					break
+				}
+				prev = int64(v)
+				sp = append(sp, span{v, v})
+			}
+		}
+		ev.Aux = ok
+		ev.Arr = e.projArr(normalize(sp), ev)
+		ev.Ret = numFromU64(uint64(len(sp)))
 	case "ChecksumEq":
 		ev.Ret = e.bm(c.X).Checksum() == e.bm(c.Y).Checksum()
 	case "ChecksumRT":
